@@ -27,7 +27,7 @@ func (c07) Budget(tier string) int {
 	if tier == "thorough" {
 		return 6000
 	}
-	return 320
+	return 2240
 }
 
 func (c07) Describe() engine.Info {
